@@ -56,7 +56,7 @@ RULE = (
     "records read back from CSV carry the cells' text."
 )
 ASSUMPTIONS = [
-    "in the tzdisplay worker the text form of a timestamp is checked against an independent stdlib reference (its own stored wall clock and offset under FLOW_RECORD_TZ=NONE, the instant in the display zone otherwise); everywhere else the text form of a value is Python's str(value) (repr / format(value, spec) in text output): value-level rendering is shared with the implementation, layout is modelled independently; display-timezone independence is C13's",
+    "the text form of every value is computed from the value's COMPONENTS by textmodel_c20.ref_str / ref_repr (layouts documented at the pinned revision: human readable file sizes, octal file modes, dotted quad '/' popcount(mask) for the deprecated net.ipv4 types, the standard library's rendering of ipaddress / pathlib / datetime objects in the display zone, Python's own repr of builtins) - the library's __str__ / __repr__ are never the reference; only non-empty format specs other than defang still go through Python's format(value, spec).; display-timezone independence across settings is C13's",
     "the reference of the defang spec encodes the rules documented at the pinned revision (six schemes, anchored at the start of the value, case-insensitive; dot before the last word run that ends at end-of-value, '/' or ':'; third dot of a dotted quad); a final line feed counts as end of value",
     "the csv MODE of rdump writes through the process's text stdout: its bytes are by construction the environment's encoding of the text, so the stdout-encoding children cover the byte-writing text and line writers only (JSON rendering is C14's)",
     "CSV from a non-seekable stdin can only be read with the default dialect (no look-ahead without consuming): the pipe cases use comma-separated content",
@@ -66,12 +66,15 @@ ASSUMPTIONS = [
     "field names equal to GroupedRecord's own attributes (name, records, ...) are not generated here (C15 known finding)",
     "format templates use plain {key}, {key!r}, {key:spec}; {key.attr}, {key[i]}, nested specs {key:>{other}} and conversions on them (expression templates over one type with path, digest, uri, datetime, typed-list, bytes, command, string and integer fields); the reference is the stdlib's pure-Python string.Formatter over a mapping whose missing keys read as '{key}'; a template Python itself refuses for the values (bad spec, attribute of None, index out of range, attribute of an unknown key) makes the case undefined and is skipped (counted)",
     "in a template exactly the writer's three documented two-character escapes (backslash r, n, t) are translated, over the whole template and before formatting; every other backslash sequence, a trailing backslash and non-ASCII / surrogate-escaped literal text come out unchanged; field VALUES containing such sequences are never translated",
+    "an option given both as keyword argument and in the URI query (with a different value) is taken from the keyword argument, as the unchanged RecordWriter does",
     "format_spec is passed as keyword argument, percent-quoted URI query or raw URI query (raw only without & # + % TAB CR LF, surrounding blanks; a surrogate-escaped literal only as keyword argument because the URI parser cannot carry undecodable bytes)",
-    "CSV read-back is restricted to unambiguous content: >= 2 columns, >= 1 data row, cells without delimiter candidates, quotes, blanks or line breaks, file < 1000 characters, and the standard csv.Sniffer on the whole text identifies the delimiter used (otherwise the case is skipped and counted)",
+    "CSV read-back is restricted to unambiguous content: >= 2 columns, >= 1 data row, file < 1000 characters, the standard csv.Sniffer on the whole text identifies the delimiter used; cells are either safe (no delimiter candidates, quotes, blanks, line breaks) or, in the quoted-cells variant, standard-quoted cells holding CR LF / lone CR / trailing CR / LF CR / quotes / the delimiter for which the sniffer also finds the quote character and a standard parser with the sniffed dialect recovers exactly the written cells (otherwise the case is skipped and counted); routes: csvfile://path, plain .csv path, rdump with a CSV source, stdin pipe",
+    "one CSV reader object may be iterated in pieces (peek one record then loop, islice batches, break and resume, an abandoned iterator): as with the unchanged reader all pieces together are the file's records in order",
+    "a UTF-8 byte order mark in front of the header puts the file outside the unambiguous class (the unchanged reader mostly refuses it - the mark becomes part of the first field name - or does not recognise the header): refusal / unrecognised header are only counted; when the reader does deliver one record per row with the written column names, every cell must be exact",
     "'extreme' (70 kB+) values are left out to keep cells below csv.field_size_limit of the parsing side",
 ]
 SHARDS = {"quick": 8, "thorough": 16}
-BUDGET_S = {"quick": 150, "thorough": 900}
+BUDGET_S = {"quick": 150, "thorough": 1500}
 
 ANCHORS = [
     "flow.record.adapter.csvfile:CsvfileWriter.write",
@@ -96,6 +99,7 @@ RDUMP_MODE_FAMILIES = [
 STDOUT_ENVS = [{"PYTHONIOENCODING": "ascii"}, {"PYTHONIOENCODING": "latin-1"}, {"PYTHONIOENCODING": "utf-16"}, {"PYTHONIOENCODING": "cp1252"},
                {"LC_ALL": "C", "PYTHONUTF8": "0"}, {"PYTHONUTF8": "1"}, {"LC_ALL": "C", "PYTHONUTF8": "0", "PYTHONIOENCODING": "ascii:strict"}]
 RDUMP_CSV_MODES = [["--csv"], ["-C"], ["--mode=csv"], ["-m", "csv"]]
+TZ_ZONES_MORE = ["Asia/Kolkata", "America/St_Johns", "Pacific/Chatham", "Africa/Monrovia", "America/Sao_Paulo", "Asia/Tokyo", "Pacific/Apia", "Europe/Dublin"]
 TZ_ZONES = ["Europe/Amsterdam", "America/New_York", "Asia/Kathmandu", "Australia/Lord_Howe", "UTC"]
 WORKER_TIMEOUT_S = 120
 VERIF_DIR = os.path.dirname(os.path.dirname(os.path.dirname(os.path.abspath(__file__))))
@@ -143,24 +147,25 @@ def teardown(ctx):
 
 
 def generate(ctx):
-    total = ctx.scale(900, 6000)
+    total = ctx.scale(1200, 18000)
     rng = random.Random(subseed("c20", "plan", ctx.seed, ctx.shard))
     kinds = [k for k, _ in KINDS]
     weights = [w for _, w in KINDS]
-    tz_plan = ["NONE", rng.choice(TZ_ZONES), "NONE"] if ctx.quick else ["NONE", "NONE", None, "NONE"] + rng.sample(TZ_ZONES, 3) + ["NONE"]
+    tz_plan = (["NONE", rng.choice(TZ_ZONES), "NONE"] if ctx.quick else
+               ["NONE", "none", None, "NONE", "None", "Mars/Olympus_Mons", "NONE", "NONE"] + rng.sample(TZ_ZONES + TZ_ZONES_MORE, 10) + ["NONE", "NONE"])
     every = max(1, total // len(tz_plan))
-    tool_plan = [("rdumpcsv", m) for m in rng.sample(RDUMP_CSV_MODES, len(RDUMP_CSV_MODES))][:ctx.scale(2, 4)] * ctx.scale(1, 3) + [("rdumpfmt", None)] * ctx.scale(1, 6)
+    tool_plan = [("rdumpcsv", m) for m in rng.sample(RDUMP_CSV_MODES, len(RDUMP_CSV_MODES))][:ctx.scale(2, 4)] * ctx.scale(1, 5) + [("rdumpfmt", None)] * ctx.scale(1, 16)
     tool_every = max(1, total // len(tool_plan))
     combos = [(fam, opt) for fam in range(len(RDUMP_MODE_FAMILIES)) for opt in ("none", "F", "X", "FX")]
-    mine = [c for j, c in enumerate(combos) if ctx.mine(j + ctx.seed)] * ctx.scale(1, 2)
+    mine = [c for j, c in enumerate(combos) if ctx.mine(j + ctx.seed)] * ctx.scale(1, 12)
     for fam, opt in mine:
         tool_plan.append(("rdumpmode", [fam, opt]))
-    tool_plan += [("envstdout", (ctx.shard + ctx.seed + j) % 4) for j in range(ctx.scale(1, 4))] + [("csvpipe", None)] * ctx.scale(1, 4)
+    tool_plan += [("envstdout", (ctx.shard + ctx.seed + j) % 4) for j in range(ctx.scale(1, 6))] + [("csvpipe", None)] * ctx.scale(1, 16)
     rng.shuffle(tool_plan)
     tool_every = max(1, total // len(tool_plan))
     for i in range(total):
         if i % every == 0 and tz_plan:
-            yield {"k": "tzdisplay", "tz": tz_plan.pop(0), "n": ctx.scale(25, 60), "s": subseed("c20", ctx.seed, ctx.shard, "tz", i)}
+            yield {"k": "tzdisplay", "tz": tz_plan.pop(0), "n": ctx.scale(25, 150), "s": subseed("c20", ctx.seed, ctx.shard, "tz", i)}
         if i % tool_every == 0 and tool_plan:
             k, mode = tool_plan.pop(0)
             yield {"k": k, "mode": mode, "s": subseed("c20", ctx.seed, ctx.shard, k, i)}
@@ -170,10 +175,12 @@ def generate(ctx):
 
 # ---- building records --------------------------------------------------------------------------------
 class Maker:
-    def __init__(self, seed):
+    def __init__(self, seed, thorough=False):
         self.rng = random.Random(seed)
-        self.b = gen.Builder(self.rng, thorough=False, max_depth=1)
+        self.thorough = thorough
+        self.b = gen.Builder(self.rng, thorough=False, max_depth=2 if thorough else 1)
         self.ntypes = 0
+        self.packable_only = False  # net.ipv4.Subnet has no packed form: left out where records travel through a stream
 
     def hostile_text(self):
         rng = self.rng
@@ -196,6 +203,10 @@ class Maker:
                 t = rng.choice(TEXTY)
             elif r < 0.5:
                 t = rng.choice(["datetime", "path", "bytes", "varint", "float", "string[]", "command", "digest", "filesize", "filesize", "filesize[]", "record"])
+            elif r < 0.56 and not self.packable_only:
+                t = "net.ipv4.Subnet"
+            elif r < 0.6:
+                t = rng.choice(["net.ipv4.Address", "unix_file_mode", "net.ipnetwork", "net.ipaddress"])
             else:
                 t = rng.choice(gen.ALL_FIELD_TYPES)
             fields.append((t, fn))
@@ -212,6 +223,17 @@ class Maker:
             return self.hostile_text()
         if ftype == "string[]" and rng.random() < 0.4:
             return [self.hostile_text() for _ in range(rng.randint(0, 3))]
+        if ftype == "net.ipv4.Subnet":
+            return rng.choice(["0.0.0.0/0", "128.0.0.0/1", "192.0.0.0/2", "10.0.0.0/8", "1.2.3.4/31", "1.2.3.4/32", "255.255.255.255/32", "255.255.255.254/31",
+                               "172.16.0.0/12", "1.2.3.4", "0.0.0.0/32", "0.0.0.0/1", "192.168.1.0/24"])
+        if ftype == "net.ipv4.Address" and rng.random() < 0.5:
+            return rng.choice(["0.0.0.0", "255.255.255.255", "0.0.0.1", "1.0.0.0", "127.0.0.1", 0, 2**32 - 1])
+        if ftype == "unix_file_mode" and rng.random() < 0.6:
+            return rng.choice([0, 0o7777, 0o644, 0o100644, 0o40755, 1, 0o777])
+        if ftype in ("net.ipnetwork", "net.IPNetwork") and rng.random() < 0.5:
+            return rng.choice(["0.0.0.0/0", "::/0", "::/128", "::1/128", "255.255.255.255/32", "0.0.0.0/32", "10.0.0.0/31", "fe80::/10", "2001:db8::/127"])
+        if ftype in ("net.ipaddress", "net.IPAddress") and rng.random() < 0.3:
+            return rng.choice(["::", "::1", "0.0.0.0", "255.255.255.255", "ffff:ffff:ffff:ffff:ffff:ffff:ffff:ffff", "::ffff:0.0.0.0"])
         if ftype == "filesize" and rng.random() < 0.6:
             return rng.choice(FILESIZE_EDGES) * rng.choice([1, 1, -1])
         if ftype == "filesize[]" and rng.random() < 0.6:
@@ -229,8 +251,10 @@ class Maker:
             return [rng.choice(EDGE_DATETIMES) for _ in range(rng.randint(1, 2))]
         classes = [c for c in gen.classes_for(ftype) if c not in ("extreme", "none")] or ["random"]
         vc = rng.choice(classes)
-        if vc == "boundary" and ftype in TEXTY + ("bytes",) and rng.random() < 0.7:
+        if vc == "boundary" and ftype in TEXTY + ("bytes",) and rng.random() < (0.4 if self.thorough else 0.7):
             vc = "random"  # keep the 64 kB boundary strings rare
+        if self.thorough and rng.random() < 0.003 and "extreme" in gen.classes_for(ftype):
+            vc = "extreme"  # 70 kB cells / 3000-element lists: rare, thorough only (below csv.field_size_limit of the parsing side)
         return self.b.value(ftype, vc, depth=1)
 
     def record(self, desc):
@@ -248,8 +272,8 @@ class Maker:
         from flow.record import GroupedRecord
 
         rng = self.rng
-        descs = [self.descriptor() for _ in range(rng.choice([1, 2, 2, 3]))]
-        n = rng.choice([1, 2, 3, 4, 5, 6, 8, 10])
+        descs = [self.descriptor() for _ in range(rng.choice([1, 2, 2, 3] + ([4, 5] if self.thorough else [])))]
+        n = rng.choice([1, 2, 3, 4, 5, 6, 8, 10] + ([16, 30] if self.thorough else []))
         out = []
         cur = rng.choice(descs)
         for i in range(n):
@@ -345,6 +369,12 @@ def open_writer(rng, scheme, path, opts):
         else:
             kwargs[k] = v
             forms.append("%s:kwarg" % k)
+    # the same option given BOTH ways with different values: the explicit keyword argument wins over the URI query
+    decoys = {"fields": "decoy_field,_version", "exclude": "_generated,decoy", "lineterminator": "|", "format_spec": "DECOY{_version}", "verbose": "1"}
+    for k in list(kwargs):
+        if k in decoys and not any(q.startswith(k + "=") for q in query) and rng.random() < 0.3 and not (k == "verbose"):
+            query.append("%s=%s" % (k, decoys[k]))
+            forms.append("%s:kwarg-over-query" % k)
     uri = "%s://%s" % (scheme, path) + ("?" + "&".join(query) if query else "")
     return RecordWriter(uri, **kwargs), {"uri": uri.replace(os.path.dirname(path), "<tmp>"), "kwargs": {k: repr(v) for k, v in kwargs.items()}, "forms": forms}
 
@@ -599,7 +629,7 @@ def do_line(ctx, case, mk):
     for i, r in enumerate(records):
         names, values, types, strict = tm.slots_and_values(r)
         sel = tm.select(names, opts["fields"], opts["exclude"])
-        items = [("%s (%s)" % (n, types[n]) if verbose else n, str(values[n])) for n in sel]
+        items = [("%s (%s)" % (n, types[n]) if verbose else n, tm.ref_str(values[n])) for n in sel]
         pos, why = tm.match_line_block(text, pos, i + 1, items, strict)
         if why:
             ctx.violation(None, "line output: block of a record is not 'header + one name = value line per selected field'",
@@ -776,6 +806,12 @@ def do_text(ctx, case, mk):
     if 0.3 <= mode < 0.78:
         names, values, types, _ = tm.slots_and_values(records[0])
         template, info = make_template(rng, names, values, types)
+    if template is not None and ":defang" in template:
+        # the library's defang is quadratic in the length of a dot-less word run (64 kB boundary strings take half a minute): keep the
+        # spec to cells of ordinary size - a matter of run time, not of rendering
+        if any(isinstance(v, str) and len(v) > 4000 for r in records for v in tm.slots_and_values(r)[1].values()):
+            template = template.replace(":defang", "")
+            ctx.event("text_defang_spec_dropped_for_huge_cell")
     opts = {"format_spec": template}
     effective = None if template is None else tm.translate_escapes(template)
     ctx.ev()
@@ -788,7 +824,7 @@ def do_text(ctx, case, mk):
     undefined = None
     for r in records:
         if template is None:
-            expected.append(repr(r))
+            expected.append(tm.ref_repr(r))
         else:
             try:
                 expected.append(tm.apply_template(effective, tm.slots_and_values(r)[1]))
@@ -876,12 +912,23 @@ def do_csvread(ctx, case, mk):
     names = rng.sample(["a", "b", "c", "col1", "Name", "x_y", "class", "value", "ts", "id9", "Zq", "from"], ncol)
     rows = [[safe_cell(rng) for _ in range(ncol)] for _ in range(nrow)]
     source = rng.choice(["harness", "harness", "writer"])
+    # quoted cells with line breaks / quotes / delimiters: still unambiguous when the standard heuristic finds delimiter and quote
+    # character and a standard parser recovers the cells from the text (checked below)
+    quoted = rng.random() < 0.45
+    if quoted:
+        pool = ["a\r\nb", "lone\rcr", "trail\r", "\rlead", "lf\ncr\r", "\n\r", "x\ny", 'q"t', '""', " sp ", "tab\there", "é\r\nü"]
+        rows = [[(rng.choice(pool) if rng.random() < 0.4 else c) for c in row] for row in rows]
+        rows[0][0] = rng.choice(pool[:7])
+    bom = rng.random() < 0.12
     ctx.ev()
     if source == "harness":
         delim = rng.choice([",", ";", "\t", "|"])
-        lt = rng.choice(["\r\n", "\n", "\r"])
+        lt = "\r\n" if quoted else rng.choice(["\r\n", "\n", "\r"])
+        if quoted and rng.random() < 0.6:
+            rows = [[c.replace(delim, "_") if rng.random() < 0.7 else c for c in row] for row in rows]
+            rows[0][-1] = "d" + delim + "d"
         buf = io.StringIO(newline="")
-        w = csv.writer(buf, delimiter=delim, lineterminator=lt)
+        w = csv.writer(buf, delimiter=delim, lineterminator=lt, quoting=csv.QUOTE_ALL if quoted and rng.random() < 0.3 else csv.QUOTE_MINIMAL)
         w.writerow(names)
         w.writerows(rows)
         text = buf.getvalue()
@@ -890,7 +937,7 @@ def do_csvread(ctx, case, mk):
         columns = list(names)
     else:
         delim = ","
-        lt = rng.choice([None, "\\n", "\\r"])
+        lt = None if quoted else rng.choice([None, "\\n", "\\r"])
         desc = RecordDescriptor("t/safe", [("string", n) for n in names])
         kw = {} if lt is None else {"lineterminator": lt}
         if rng.random() < 0.5:
@@ -906,33 +953,105 @@ def do_csvread(ctx, case, mk):
         with open(path, "r", newline="", encoding="utf-8") as f:
             text = f.read()
         columns = list(names)
-    ctx.cell("csvread", source, "delim=" + repr(delim), "lt=" + repr(lt))
+    ctx.cell("csvread", source, "delim=" + repr(delim), "lt=" + repr(lt), "quoted-cells" if quoted else "safe-cells")
     # gate: unambiguous for the standard heuristic (computed on the whole text with the stdlib only)
     try:
-        sniffed = csv.Sniffer().sniff(text).delimiter if len(text) < 1000 else None
+        dialect = csv.Sniffer().sniff(text) if len(text) < 1000 else None
+        sniffed = dialect.delimiter if dialect else None
+        if quoted and dialect is not None:
+            # quote character found, and a standard parser with that dialect recovers exactly the cells that were written
+            meta_cols = 0 if source == "harness" else None
+            parsed = [r for r in csv.reader(io.StringIO(text, newline=""), dialect=dialect)]
+            want = [names] + rows
+            same = [r[:len(names)] for r in parsed] == want if meta_cols is None else parsed == want
+            if dialect.quotechar != '"' or not same:
+                sniffed = None
     except csv.Error:
         sniffed = None
     if sniffed != delim:
         ctx.event("csvread_ambiguous_skipped")
         os.unlink(path)
         return
-    detail = {"source": source, "delimiter": delim, "terminator": lt, "text": text[:500]}
+    if bom:
+        with open(path, "rb") as f:
+            body = f.read()
+        with open(path, "wb") as f:
+            f.write(b"\xef\xbb\xbf" + body)
+    detail = {"source": source, "delimiter": delim, "terminator": lt, "text": text[:500], "byte_order_mark": bom, "reader_usage": None}
+    route = rng.choice(["csvfile://", "path", "rdump"]) if (mk.thorough or rng.random() < 0.15) else rng.choice(["csvfile://", "path"])
+    dst = None
     try:
-        rd = RecordReader("csvfile://" + path)
+        if route == "rdump":
+            dst = new_path(ctx, "records")
+            if run_rdump(ctx, [path, "-w", dst] if rng.random() < 0.5 else ["csvfile://" + path, "-w", dst], quiet_failure=bom) is None:
+                if bom:
+                    ctx.event("csvread_bom_refused")
+                return
+            rd = RecordReader(dst)
+        else:
+            rd = RecordReader(("csvfile://" if route == "csvfile://" else "") + path)
+        history = "all" if route == "rdump" else rng.choice(["all", "all", "peek", "islice", "break", "next"])
         try:
-            got = list(rd)
+            # usage histories of ONE reader: an abandoned iteration must not end the reader, the rest stays readable in order
+            import itertools
+
+            if history == "all":
+                got = list(rd)
+            elif history == "peek":
+                got = list(itertools.islice(rd, 1))
+                got += [r for r in rd]
+            elif history == "islice":
+                got = []
+                while True:
+                    batch = list(itertools.islice(rd, rng.choice([1, 2, 3])))
+                    if not batch:
+                        break
+                    got += batch
+            elif history == "break":
+                got = []
+                for r in rd:
+                    got.append(r)
+                    if len(got) == rng.choice([1, 2]):
+                        break
+                for r in rd:
+                    got.append(r)
+            else:
+                it = iter(rd)
+                got = [next(it)] if rows else []
+                del it
+                import gc
+
+                gc.collect()
+                got += list(rd)
+            ctx.event("csvread_history:" + history)
+            detail["reader_usage"] = history
         finally:
             rd.close()
     except Exception as e:  # noqa: BLE001
-        ctx.violation(None, "reading an unambiguous CSV file raised %s" % type(e).__name__, detail=dict(detail, exception=repr(e)[:300]))
+        if bom:
+            # a byte order mark in front of the header: refusing the file is open; reading it must give exact names and cells (below)
+            ctx.event("csvread_bom_refused")
+            return
+        ctx.violation(None, "reading an unambiguous CSV file raised %s" % type(e).__name__, detail=dict(detail, route=route, exception=repr(e)[:300]))
         return
     finally:
-        try:
-            os.unlink(path)
-        except OSError:
-            pass
+        for pth in (path, dst):
+            try:
+                if pth:
+                    os.unlink(pth)
+            except OSError:
+                pass
+    ctx.event("csvread_route:" + route)
+    if bom:
+        ctx.event("csvread_bom_read")
+    if quoted:
+        ctx.event("csvread_files_with_quoted_line_breaks")
+    if bom and (len(got) != len(rows) or any(not hasattr(got[0], n) for n in columns)):
+        # with a byte order mark the header is not what the heuristic was judged on: outside the unambiguous class, observed only
+        ctx.event("csvread_bom_header_not_recognised")
+        return
     if len(got) != len(rows):
-        ctx.violation(None, "CSV read-back yields %d records for %d rows" % (len(got), len(rows)), detail=detail)
+        ctx.violation(None, "CSV read-back: the number of records differs from the number of rows", detail=dict(detail, records=len(got), rows=len(rows)))
         return
     for i, (rec, row) in enumerate(zip(got, rows)):
         try:
@@ -981,11 +1100,11 @@ def do_gmutwrite(ctx, case, mk):
     def snapshot():
         names, values, types, _ = tm.slots_and_values(g)
         if scheme == "text":
-            return repr(g) if template is None else tm.apply_template(template, values)
+            return tm.ref_repr(g) if template is None else tm.apply_template(template, values)
         sel = tm.select(names, opts.get("fields"), opts.get("exclude"))
         if scheme == "csvfile":
             return (sel, [tm.cell_text(values[n]) for n in sel])
-        return [("%s (%s)" % (n, types[n]) if opts.get("verbose") else n, str(values[n])) for n in sel]
+        return [("%s (%s)" % (n, types[n]) if opts.get("verbose") else n, tm.ref_str(values[n])) for n in sel]
 
     def mutate():
         done = []
@@ -1039,7 +1158,7 @@ def do_gmutwrite(ctx, case, mk):
             changes = mutate()
             expected.append(snapshot())
             w.write(g)
-            if rng.random() < 0.5:
+            for _ in range(rng.choice([0, 1]) if not mk.thorough else rng.choice([0, 1, 2, 3])):
                 changes += mutate()
                 expected.append(snapshot())
                 w.write(g)
@@ -1136,7 +1255,7 @@ def do_tzdisplay(ctx, case, mk):
 
 
 # ---- the rdump tool's stdout modes (child process) -----------------------------------------------------------
-def run_rdump(ctx, args, extra_env=None, stdin=None, want_failure_info=False):
+def run_rdump(ctx, args, extra_env=None, stdin=None, quiet_failure=False):
     """`python -m flow.record.tools.rdump <args>` in a child process importing the tree under test.  -> stdout bytes or None."""
     env = dict(os.environ)
     for k in ("PYTHONIOENCODING", "PYTHONUTF8", "LC_ALL", "LC_CTYPE", "LANG"):
@@ -1155,6 +1274,8 @@ def run_rdump(ctx, args, extra_env=None, stdin=None, want_failure_info=False):
         ctx.require(False, "an rdump child process exceeded its %d s watchdog" % WORKER_TIMEOUT_S)
         return None
     ctx.event("rdump_children_run")
+    if p.returncode != 0 and quiet_failure:
+        return None
     if p.returncode != 0:
         ctx.violation(None, "rdump failed for valid records (exit %s)" % p.returncode,
                       detail={"args": [a if not a.startswith(ctx.state["tmp"]) else "<src>" for a in args], "environment": extra_env,
@@ -1194,6 +1315,7 @@ def do_rdumpcsv(ctx, case, mk):
     fixed = ["Downloading 10%\rDownloading 100%", "old mac line\r", "\r", "first\nsecond", "first\r\nsecond", 'say "hi"', "a,b", " lead", "trail ", "\rstart",
              "tab\there", "mixed\r,\"q\"", "x\ry\rz"]
     hostile = [console.recordType(name="row%d" % i, text=t, number=i) for i, t in enumerate(rng.sample(fixed, rng.randint(4, len(fixed))))]
+    mk.packable_only = True
     records = mk.sequence() + hostile + mk.sequence()
     ctx.ev()
     try:
@@ -1336,6 +1458,7 @@ def do_defang(ctx, case, mk):
 def do_rdumpfmt(ctx, case, mk):
     """rdump -f / --format TEMPLATE (stdout of a child process) == the template applied to each record, defang spec included."""
     rng = mk.rng
+    mk.packable_only = True
     ctx.ev()
     if rng.random() < 0.6:
         records = defang_records(rng, mk, rng.choice([3, 6, 9]))
@@ -1347,6 +1470,8 @@ def do_rdumpfmt(ctx, case, mk):
         records = [r for r in records if type_key(r) == type_key(records[0])]
         names, values, types, _ = tm.slots_and_values(records[0])
         template, _ = make_template(rng, names, values, types)
+        if any(isinstance(v, str) and len(v) > 4000 for r in records for v in tm.slots_and_values(r)[1].values()):
+            template = template.replace(":defang", "")
     if any(0xD800 <= ord(c) <= 0xDFFF for c in template) or template.strip() == "":
         template = "{_version}|" + "".join(c for c in template if not 0xD800 <= ord(c) <= 0xDFFF)  # rdump url-encodes the template itself
     try:
@@ -1396,7 +1521,16 @@ def projected(r, fields, exclude):
         keep = [n for n in data if n not in exclude]
     else:
         keep = data
-    return str(r._desc.name), [(types[n], n) for n in keep], values
+    kept = [(types[n], n) for n in keep]
+    if fields or exclude:
+        # the tool rebuilds the record: an unset typed-list / digest field then holds the type's empty default (C01: same value)
+        from flow.record import RecordDescriptor
+
+        kw = dict((n, values[n]) for _, n in kept)
+        kw.update((m, values[m]) for m in ("_source", "_classification", "_generated"))
+        built = RecordDescriptor(str(r._desc.name), kept).recordType(**kw)
+        values = dict((n, getattr(built, n)) for n in [x for _, x in kept] + list(tm.META))
+    return str(r._desc.name), kept, values
 
 
 def do_rdumpmode(ctx, case, mk):
@@ -1405,6 +1539,7 @@ def do_rdumpmode(ctx, case, mk):
     from flow.record import RecordDescriptor
 
     rng = mk.rng
+    mk.packable_only = True
     fam, opt = case["mode"]
     family, spellings = RDUMP_MODE_FAMILIES[fam]
     flag = list(rng.choice(spellings))
@@ -1467,7 +1602,7 @@ def do_rdumpmode(ctx, case, mk):
             types = dict((n, t) for t, n in data)
             types.update(zip(tm.META, ("string", "string", "datetime", "varint")))
             sel = tm.select(slots, fields, exclude)
-            items = [("%s (%s)" % (n, types[n]) if family == "line-verbose" else n, str(values[n])) for n in sel]
+            items = [("%s (%s)" % (n, types[n]) if family == "line-verbose" else n, tm.ref_str(values[n])) for n in sel]
             pos, why = tm.match_line_block(text, pos, i + 1, items, True)
             if why:
                 ctx.violation(None, what, detail=dict(detail, block=i + 1, why=why, selected=sel))
@@ -1528,11 +1663,11 @@ def do_rdumpmode(ctx, case, mk):
                 except tm.Undefined:  # cannot happen for plain {key} fields; keep the run conclusive anyway
                     expected.append("<undefined>")
             elif not fields and not exclude:
-                expected.append(repr(r))
+                expected.append(tm.ref_repr(r))
             else:
                 kw = dict((n, values[n]) for _, n in data)
                 kw.update((m, values[m]) for m in ("_source", "_classification", "_generated"))
-                expected.append(repr(RecordDescriptor(name, data).recordType(**kw)))
+                expected.append(tm.ref_repr(RecordDescriptor(name, data).recordType(**kw)))
         exp_text = "".join(e + "\n" for e in expected)
         if text != exp_text:
             pos = next((i for i in range(min(len(text), len(exp_text))) if text[i] != exp_text[i]), min(len(text), len(exp_text)))
@@ -1567,7 +1702,7 @@ def do_envstdout(ctx, case, mk):
         mode = ["text", "format", "line", "line-verbose"][case["mode"] % 4] if isinstance(case.get("mode"), int) else rng.choice(["text", "format", "line", "line-verbose"])
         args = [src]
         if mode == "text":
-            expected = "".join(repr(r) + "\n" for r in back)
+            expected = "".join(tm.ref_repr(r) + "\n" for r in back)
         elif mode == "format":
             template = "{n}: {name} - {note}|{tags}"  # ASCII only: argv itself is decoded with the child's locale
             args += ["-f", template]
@@ -1579,10 +1714,10 @@ def do_envstdout(ctx, case, mk):
                 names, values, types, _ = tm.slots_and_values(r)
                 keys = ["%s (%s)" % (n, types[n]) if mode == "line-verbose" else n for n in names]
                 width = max(len(k) for k in keys)
-                parts.append("--[ RECORD %d ]--\n" % (i + 1) + "".join("%s = %s\n" % (k.rjust(width), str(values[n])) for k, n in zip(keys, names)))
+                parts.append("--[ RECORD %d ]--\n" % (i + 1) + "".join("%s = %s\n" % (k.rjust(width), tm.ref_str(values[n])) for k, n in zip(keys, names)))
             expected = "".join(parts)
         want = expected.encode("utf-8", "surrogateescape")
-        for extra in rng.sample(STDOUT_ENVS, 2):
+        for extra in (STDOUT_ENVS if mk.thorough else rng.sample(STDOUT_ENVS, 2)):
             out = run_rdump(ctx, args, extra_env=extra)
             label = ",".join("%s=%s" % kv for kv in sorted(extra.items()))
             ctx.cell("envstdout", mode, label)
@@ -1613,9 +1748,16 @@ def do_csvpipe(ctx, case, mk):
     ncol = rng.randint(2, 5)
     nrow = rng.choice([1, 3, 8, 40, 120])
     names = rng.sample(["a", "b", "c", "col1", "Name", "x_y", "value", "ts", "id9", "Zq"], ncol)
-    rows = [[safe_cell(rng) for _ in range(ncol)] for _ in range(nrow)]
+    hostile = rng.random() < (0.5 if mk.thorough else 0.25)
+    quoted = ["a,b", 'q"t', '""', " sp ", "l1\nl2", "c\rr", "crlf\r\nx", ",", "é,ü", "tab\there", "'"]
+    rows = [[(rng.choice(quoted) if hostile and rng.random() < 0.4 else safe_cell(rng)) for _ in range(ncol)] for _ in range(nrow)]
+    if hostile:
+        ctx.event("csvpipe_with_quoted_cells")
     buf = io.StringIO(newline="")
-    wr = csv.writer(buf, lineterminator=rng.choice(["\r\n", "\n"]))
+    # with hostile cells the harness asks for CRLF rows (and quotes everything half of the time): the stdlib writer quotes a cell holding
+    # CR / LF only when that character belongs to the row terminator
+    wr = csv.writer(buf, lineterminator="\r\n" if hostile else rng.choice(["\r\n", "\n"]),
+                    quoting=csv.QUOTE_ALL if hostile and rng.random() < 0.5 else csv.QUOTE_MINIMAL)
     wr.writerow(names)
     wr.writerows(rows)
     text = buf.getvalue()
@@ -1637,7 +1779,8 @@ def do_csvpipe(ctx, case, mk):
         return
     detail = {"csv": text[:400], "rows": nrow, "characters": len(text)}
     if len(got) != len(rows):
-        ctx.violation(None, "CSV from a pipe: %d records for %d rows (header / first rows lost?)" % (len(got), len(rows)), detail=dict(detail, first=describe(got, 2)))
+        ctx.violation(None, "CSV from a pipe: the number of records differs from the number of rows (header / first rows lost?)",
+                      detail=dict(detail, records=len(got), first=describe(got, 2)))
         return
     for i, (rec, row) in enumerate(zip(got, rows)):
         for n, cell in zip(names, row):
@@ -1656,7 +1799,7 @@ DISPATCH = {"csv": do_csv, "line": do_line, "text": do_text, "csvread": do_csvre
 
 
 def execute(ctx, case):
-    mk = Maker(case["s"])
+    mk = Maker(case["s"], thorough=not ctx.quick)
     ctx.event("kind:" + case["k"])
     DISPATCH[case["k"]](ctx, case, mk)
 
